@@ -5,6 +5,23 @@ V = os.path.dirname(os.path.dirname(os.path.abspath(__file__)))
 
 # id -> (category, level text, level note, technique, design ref)
 CLAIMED = {
+ "C06": ("other",
+  "Structural clauses of panic/defer/recover handling decided on the call graph, go/cfg and SSA of package interp: every path from an exported entry point (and from each goroutine it starts) to the execution loop passes a converting, non-re-panicking recover; defer records are prepended one at a time and consumed once in order; recorded argument values are copies made when the defer statement executes; the unwinding function recovers, runs the records, then re-panics conditionally; recover() reads and clears the caller frame's panic value; converting recovers return Panic{Value: recovered}. Necessary conditions only: which faults reflect raises, and recover's 'called directly' rule at run time, are not decided.",
+  "Trusted: go/ssa, go/cfg, reflect raising ordinary panics. Dynamic calls through fields/slices are not followed (the execution loop is the sink). Defects D3 and D6 were found by these rules and repaired ('fix:' commits).",
+  "static call-graph must-pass-through (converting recover) + go/cfg dominance + AST shape rules on defer records", "DESIGN.md §2 C06"),
+ "C08": ("other",
+  "Three structural clauses of race freedom of the interpreter's own bookkeeping, over every run-time closure of package interp (lexical ownership rule with alias tracking; SSA provenance of the frame given to each activation and of goroutine argument vectors; lock pairing on every go/cfg path and a guarded-by table for frame.done / Interpreter.done). No schedule is explored; data-race freedom in general is not decided.",
+  "Trusted: go/types, go/ssa, go/cfg. Effects of callees are not followed. Defects D1 and D5 were found by these rules and repaired ('fix:' commits).",
+  "ownership/effect lint over closures (captured-write rule) + SSA value provenance + lock-pairing on go/cfg", "DESIGN.md §2 C08"),
+ "C09": ("other",
+  "Structural necessary conditions of cancellation: run-id gate in every execution loop, id/done inheritance in every frame constructor and newFrame call, every blocking channel operation either disabled under cancellable mode or racing the frame's done case and stopping when it fires, the three context watchers, stop() and run(). Promptness and blocking host functions are not decided.",
+  "Trusted: reflect.Select/TryRecv/TrySend semantics, go/ssa. Known finding K11 (mode chosen at closure-generation time) is printed as KNOWN-FINDING.",
+  "SSA value provenance + AST/three-valued condition evaluation + sibling cross-check of the watchers", "DESIGN.md §2 C09"),
+ "C10": ("other",
+  "Two clauses about run ids surviving a cancellation: the root frame id is refreshed before every run in Execute (go/cfg dominance) and callbacks handed to reflect.MakeFunc must not gate on a run id captured at creation (SSA provenance). Nothing else about post-cancellation state is decided.",
+  "Known findings K2/K3 (both MakeFunc callbacks gate on a captured frame's id) are printed as KNOWN-FINDING; they are genuine defects whose repair needs a design decision (it conflicts with stopping callbacks entered by goroutines running at the time of the cancel).",
+  "go/cfg dominance + SSA provenance of the id operand", "DESIGN.md §2 C10"),
+
  "C17": ("other",
   "Static agreement of yaegi's file-selection code with the go/build reference sources: OS/arch table key sets, the tag conditions of matchTag, //go:build support, gating of read/parse by the verdict on every go/cfg path, orientation of the release comparison. Necessary structural conditions of the property; the boolean evaluation of arbitrary constraint lines is not decided.",
   "Trusted: go/types, go/cfg, GOROOT/src/go/build of the installed toolchain as the reference. Known findings K8/K9 (unix and implied-OS tags, //go:build lines) are printed as KNOWN-FINDING.",
